@@ -189,6 +189,7 @@ def run(per_type, seed, with_lean=True):
         names = schema.get("names") or []
         name_idx = {n: i for i, n in enumerate(names)} if isinstance(names, list) else dict(names)
         compiled = sorted(k for k, m in schema["messages"].items() if m.get("compiled", True))
+        ref_names = {k for k, m in (schema.get("reference") or {}).items() if str(m.get("origin", "")).startswith("osmosis-std:")}
         stats["registry_types"] = n_reg
         for k in compiled:
             stats["types"] += 1
@@ -237,6 +238,46 @@ def run(per_type, seed, with_lean=True):
                         stats["lean_nested_skipped"] += 1      # refers to a type outside the table (prost_types::*)
                 if len(stats["samples"]) < 3 and len(b) > 20:
                     stats["samples"].append({"type": k, "hex": hx[:200]})
+        # "for all messages shared with independently generated bindings equal values yield byte-identical encodings": the
+        # two bindings were generated from different releases of the definitions, so "equal values" are values over the
+        # fields both declare (same tag; nested messages restricted the same way).  Canonical bytes of such values go
+        # through both prost implementations -- packages/initia-proto and osmosis-std -- and must come back unchanged
+        refs = schema.get("reference") or {}
+        common = {"messages": {}}
+        for k in sorted(ref_names):
+            if k not in schema["messages"] or not schema["messages"][k].get("compiled", True):
+                continue
+            rt = {f["tag"]: f for f in refs[k]["fields"]}
+            fs = []
+            for f in schema["messages"][k]["fields"]:
+                g_ = rt.get(f["tag"])
+                if g_ is None or (g_["kind"], g_["label"], g_.get("packed")) != (f["kind"], f["label"], f.get("packed")):
+                    continue
+                if f.get("ref") is not None and f["kind"] in ("message", "map") and f["ref"] not in ref_names and f["ref"] not in EXTERNAL:
+                    continue
+                fs.append(f)
+            common["messages"][k] = {"fields": fs}
+        gc = Gen(common, random.Random(seed + 29))
+        for k in sorted(common["messages"]):
+            for i in range(1, 4):
+                try:
+                    b = gc.message(k, 0)
+                except UnknownKind:
+                    break
+                if b is None:
+                    break
+                hx = b.hex()
+                r1 = h.call({"op": "proto", "fn": "roundtrip", "type": k, "hex": hx})
+                r2 = h.call({"op": "proto", "fn": "ref_roundtrip", "type": k, "hex": hx})
+                if "bad" in r1 or "bad" in r2:
+                    break
+                stats["reference_roundtrips"] = stats.get("reference_roundtrips", 0) + 1
+                stats["evaluations"] += 1
+                if r1.get("ok") != hx or r2.get("ok") != hx:
+                    divs.append({"kind": "initia-vs-reference-bindings", "witness": True, "type": k, "hex": hx, "initia": r1.get("ok", r1), "reference": r2.get("ok", r2),
+                                 "what": "a value over the fields %s shares with osmosis-std's binding: bytes %s come back as %s from packages/initia-proto and as %s from osmosis-std" % (
+                                     k, hx[:60], str(r1.get("ok", r1))[:60], str(r2.get("ok", r2))[:60])})
+                    break
         # search for a failing input that does not depend on the translator: bytes that are canonical
         # under the *pinned* definition (baselines/) of a diverging or changed type, which prost does
         # not return unchanged
